@@ -11,13 +11,15 @@
    back to back behind the header and the header announces them, the code-blind linear pass finds
    exactly them ([parsed], Properties/C09.v) — so every allowed call sequence of the reader returns
    exactly these items in wire order and nothing else (C09_reader_refines and the flavour theorems),
-   and the typed decode at each record is its value.  Names compressed INSIDE record data and the
+   and the typed decode at each record is its value.  NAMES COMPRESSED INSIDE RECORD DATA (NS MD MF
+   CNAME MB MG MR PTR, MX, MINFO, SOA): written in any way that has a legal expansion inside the
+   RDLENGTH window, they decode to exactly the expanded labels.  OPT/unknown-type data and the
    three compression engines of the generator are decided by the roundtrip stream (AST -> several
    compression engines -> reader and iterator -> field-by-field comparison); DESIGN.md §5 C02. *)
 From Coq Require Import ZArith Lia.
 From RsdnsModel Require Import Base GenConst GenCursor GenHeader GenSpec Cursor Names Labels Header Tracker RData Reader Writer.
 From RsdnsModel.Spec Require Import WireName LinearPass RDataWire.
-From RsdnsModel.Proofs Require Import CursorSafe ListN Bits WriterLayout RecordRT RDataRT ParseSpec RecordFull ReaderRefine MessageRT.
+From RsdnsModel.Proofs Require Import CursorSafe ListN Bits WriterLayout RecordRT RDataRT ParseSpec RecordFull ReaderRefine MessageRT RDataCompressed.
 Open Scope N_scope.
 
 Definition be16 (msg : list byte) (off : N) : N := be_val (subN msg off 2) 0.
@@ -151,3 +153,39 @@ Example C02_whole_message_example :
   let x := mkSR [(12, [x61])] 1 1 60 (A_A 16909060) in
   questions_stand example_msg 12 [q] 19 /\ records_stand example_msg 19 [x] 35 /\ lenN example_msg = 35.
 Proof. exact example_stands. Qed.
+
+(* ---- names compressed inside record data ----
+   [name_in msg L p ls r] (Proofs/RDataCompressed.v): within the first L octets of the message (the
+   end of the RDLENGTH window) a name stands at p with a legal expansion into labels ls — labels in
+   place, a pointer into the earlier message, or a mix — valid labels, at most 255 octets, resuming
+   at r.  For a cursor at the record data (pos p, no window open, p + rd inside its limit): *)
+Theorem C02_rdata_compressed_names : forall msg c p rd,
+  cwf msg c -> orig c = None -> pos c = p -> p + rd <= lim c ->
+  (forall ty ls, is_name_type ty = true -> name_in msg (p + rd) p ls (p + rd) ->
+     exists m, read_rdata msg ty rd = Some m /\ m c = (c_set_pos c (p + rd), Ok (RD_Name ty (join_labels (map snd ls))))) /\
+  (forall pref ls, pref < 65536 -> 2 <= rd -> subN msg p 2 = be_bytes 2 pref -> name_in msg (p + rd) (p + 2) ls (p + rd) ->
+     exists m, read_rdata msg T_MX rd = Some m /\ m c = (c_set_pos c (p + rd), Ok (RD_Mx pref (join_labels (map snd ls))))) /\
+  (forall ls1 ls2 r1, name_in msg (p + rd) p ls1 r1 -> name_in msg (p + rd) r1 ls2 (p + rd) ->
+     exists m, read_rdata msg T_MINFO rd = Some m /\
+               m c = (c_set_pos c (p + rd), Ok (RD_Minfo (join_labels (map snd ls1)) (join_labels (map snd ls2))))) /\
+  (forall ls1 ls2 r1 r2 s rf rt ex mi,
+     name_in msg (p + rd) p ls1 r1 -> name_in msg (p + rd) r1 ls2 r2 -> r2 + 20 = p + rd ->
+     s < 4294967296 -> rf < 4294967296 -> rt < 4294967296 -> ex < 4294967296 -> mi < 4294967296 ->
+     subN msg r2 4 = be_bytes 4 s -> subN msg (r2 + 4) 4 = be_bytes 4 rf -> subN msg (r2 + 8) 4 = be_bytes 4 rt ->
+     subN msg (r2 + 12) 4 = be_bytes 4 ex -> subN msg (r2 + 16) 4 = be_bytes 4 mi ->
+     exists m, read_rdata msg T_SOA rd = Some m /\
+               m c = (c_set_pos c (p + rd), Ok (RD_Soa (join_labels (map snd ls1)) (join_labels (map snd ls2)) s rf rt ex mi))).
+Proof.
+  intros msg c p rd Hc Ho Hp Hl.
+  split; [intros; apply (name_rdata_compressed msg c p rd); assumption|].
+  split; [intros; apply (mx_rdata_compressed msg c p rd); assumption|].
+  split; [intros ls1 ls2 r1 H1 H2; apply (minfo_rdata_compressed msg c p rd Hc Ho Hp Hl ls1 ls2 r1); assumption|].
+  intros ls1 ls2 r1 r2 s rf rt ex mi. apply (soa_rdata_compressed msg c p rd Hc Ho Hp Hl).
+Qed.
+
+(* the premises are satisfiable: CNAME data "b" + pointer to the question name "a." decodes to "b.a." *)
+Example C02_rdata_compressed_example :
+  name_in example_cname_msg 35 31 [(31, [x62]); (12, [x61])] 35 /\
+  exists m, read_rdata example_cname_msg T_CNAME 4 = Some m /\
+            m (c_with_pos example_cname_msg 31) = (c_with_pos example_cname_msg 35, Ok (RD_Name T_CNAME [x62; x2e; x61; x2e])).
+Proof. exact example_cname. Qed.
